@@ -1,4 +1,4 @@
--- GENERATED from /repo by /verif/extract (gvx) on every run: do not edit
+-- GENERATED from /work/g4-repo by /verif/extract (gvx) on every run: do not edit
 namespace GV.Gen.GoLite
 
 set_option linter.unusedVariables false
@@ -61,5 +61,20 @@ def largestPowerOfTwoBelow (n : Int) : Int :=
   let power : Int := 1
   let power := largestPowerOfTwoBelow_loop1 (64) n power
   power
+
+/-- translated from muxer/segment.go:90 `IsRequest` -/
+def segIsRequest (s_ProtocolId : Int) : Bool :=
+  decide ((((s_ProtocolId : Int).toNat &&& (32768 : Int).toNat : Nat)) = 0)
+
+/-- translated from muxer/segment.go:95 `IsResponse` -/
+def segIsResponse (s_ProtocolId : Int) : Bool :=
+  decide ((((s_ProtocolId : Int).toNat &&& (32768 : Int).toNat : Nat)) > 0)
+
+/-- translated from muxer/segment.go:100 `GetProtocolId` -/
+def segGetProtocolId (s_ProtocolId : Int) : Int :=
+  if decide (s_ProtocolId ≥ 32768) then
+    wrapU 16 (s_ProtocolId - 32768)
+  else
+    s_ProtocolId
 
 end GV.Gen.GoLite
